@@ -46,5 +46,6 @@ func checkC12(c *Ctx, r *Report) {
 	runEPANIC(c, r, reach, "the encode entry points")
 	runEMAKE(c, r, reach, "the encode entry points")
 	runEDIV(c, r, reach, "the encode entry points")
+	runETableIdx(c, r, reach, "the encode entry points", 1)
 	r.Note("not decided: termination of the Data Matrix mode loop (needs a ranking argument over data-dependent rewinds); the size clause (matrix never smaller than the symbol / the request) is decided by the rendering terms under C14")
 }
